@@ -155,6 +155,10 @@ Aux:
 				mode = auxMode
 			case AmpAllowOtherKeys:
 				// ignore
+			default:
+				if !ss.localHas(ad.Name) {
+					ErrorPanic(s, depth, "Too few arguments to %s. There is no value for %s.", lam, ad.Name)
+				}
 			}
 		case optMode:
 			switch strings.ToLower(ad.Name) {
